@@ -520,7 +520,25 @@ class Interp:
         if isinstance(f, OpaqueFn):
             return f.fn(self, *args, **kwargs)
         if callable(f):
-            return f(*args, **kwargs)
+            if kwargs.get('out') is not None and getattr(f, '_reg', None):
+                import inspect
+                if 'out' not in inspect.signature(f).parameters:
+                    # ufunc-style out=: compute, then write through the view into the given array (dtype cast as NumPy does)
+                    kw = {k: v for k, v in kwargs.items() if k != 'out'}
+                    out = kwargs['out']
+                    if not is_arr(out):
+                        raise EngineError('out= with a non-array')
+                    r = f(*args, **kw)
+                    if self.store_hook:
+                        self.store_hook(out)
+                    self.lib.setitem(out, (slice(None),) * len(out.shape), r)
+                    return out
+            try:
+                return f(*args, **kwargs)
+            except TypeError as e:
+                if getattr(f, '_reg', None) and 'unexpected keyword argument' in str(e):
+                    raise EngineError('library model %s: %s' % (f._reg[0], e))
+                raise
         raise PyExc('TypeError', '%r is not callable' % (f,))
 
     def instantiate(self, cls, args, kwargs):
